@@ -37,8 +37,6 @@ def gen(r, tier, i):
     k = r.random()
     cls = 'exact' if k < 0.5 else 'weak'
     par = r.random() < (0.01 if tier == 'thorough' else 0.001)
-    if par:
-        cls = 'exact'
     if cls == 'exact':
         if r.random() < 0.7:
             grid, prec = 'dyadic', None
@@ -147,6 +145,12 @@ def run(spec):
     stats['coincident_batches'] = sum(1 for s in batch_times.values() if len(s) >= 2)
     stats['tokens_applied'] = len(apply_seq)
     stats['rows'] = len(rows)
+    # a process whose update condition is never true contributes nothing (any execution mode)
+    for p in spec['procs']:
+        if p.get('cond') == 'never':
+            V.check('never_contributes', not per_proc.get(p['pid']),
+                    lambda: ('process %d has an always-false update condition but %d of its updates were applied' % (
+                        p['pid'], len(per_proc.get(p['pid'], []))),))
     # exactly once
     for tok, ts_ in applied.items():
         V.check('exactly_once', len(ts_) == 1, lambda: ('token applied %d times' % len(ts_), tok, ts_))
